@@ -273,3 +273,14 @@ class SymText:
         if s.kind == "hex":
             return 2 * len(s.payload)
         raise Unsupported("len of a symbolic numeral")
+
+    def __bool__(s):
+        if s.kind in ("dec", "hexnum"):
+            return True  # a numeral is never the empty string
+        return len(s.payload) > 0
+
+    def __contains__(s, needle):
+        if s.kind == "dec" and isinstance(needle, str) and needle and \
+                any(c not in "-0123456789" for c in needle):
+            return False  # a decimal numeral holds digits and a sign only
+        raise Unsupported("substring test on a symbolic text")
